@@ -3,9 +3,21 @@ use std::{
     num::NonZero,
 };
 
+use super::{MAX_STRIPE_DEPTH, decode_chunk};
 use crate::io::reader::num::{read_u8, read_uint7_as};
 
-pub(super) fn decode(src: &mut &[u8], uncompressed_size: usize) -> io::Result<Vec<u8>> {
+pub(super) fn decode(
+    src: &mut &[u8],
+    uncompressed_size: usize,
+    depth: usize,
+) -> io::Result<Vec<u8>> {
+    if depth >= MAX_STRIPE_DEPTH {
+        return Err(io::Error::new(
+            io::ErrorKind::InvalidData,
+            format!("invalid stripe: nested more than {MAX_STRIPE_DEPTH} times"),
+        ));
+    }
+
     let chunk_count = read_chunk_count(src)?;
 
     let compressed_sizes = read_compressed_sizes(src, chunk_count)?;
@@ -16,7 +28,7 @@ pub(super) fn decode(src: &mut &[u8], uncompressed_size: usize) -> io::Result<Ve
         .zip(uncompressed_sizes)
         .map(|(compressed_size, uncompressed_size)| {
             let buf = split_off(src, compressed_size)?;
-            let chunk = super::decode(buf, uncompressed_size)?;
+            let chunk = decode_chunk(buf, uncompressed_size, depth + 1)?;
             validate_chunk_size(chunk.len(), uncompressed_size)?;
             Ok(chunk)
         })
